@@ -33,6 +33,9 @@ def gen_case(rng, maxlen):
             pd = {"k": rng.choice([0.2, "kA"]), "K": 2.0, "n": 2, "s1": src} if kind == "hillpositive" else {"rate": "kg*%s/(1+%s)" % (src, src)}
         t = [re, pr, kind, pd]
         if rng.random() < 0.3:
+            # the delayed product replaces an immediate one where there is one: products (immediate + delayed) never outnumber the
+            # reactants of a mass-action reaction, so that long histories cannot assemble an autocatalytic, exploding network
+            if kind == "massaction" and pr: pr.pop(); t[1] = pr
             # fixed and sampled delays (the samplers draw from the shared generator: seeding must reset everything they keep -- S2_C08)
             t += rng.choice([["fixed", [], [rng.choice(SP)], {"delay": rng.choice([0.0, 0.5])}], ["gaussian", [], [rng.choice(SP)], {"mean": 0.5, "std": 0.1}],
                              ["gamma", [], [rng.choice(SP)], {"k": 2.0, "theta": 0.2}]])
